@@ -445,8 +445,11 @@ class Gen:
     if isinstance(ty, tuple) and ty[0] == 'list':
       if cands and r.random() < 0.5:
         return ('var', r.choice(cands))
-      if ty[1] == 'int' and self.p('builtins') and r.random() < 0.3:
-        return ('fun', 'Range', [('int', r.choice([0, 1, 2, 3]))])
+      if ty[1] == 'int' and self.p('builtins') and r.random() < 0.45:
+        ints = [v for v, t in bound.items() if t == 'int']
+        if ints and r.random() < 0.4:
+          return ('fun', 'Range', [('var', r.choice(ints))])      # the bound may be 0 or negative: no elements
+        return ('fun', 'Range', [('int', r.choice([0, 0, 1, 2, 3]))])
       return ('list', [self.expr_of(ty[1], bound, depth - 1) for _ in range(r.choice([1, 2, 3]))])
     if isinstance(ty, tuple) and ty[0] == 'rec':
       return ('rec', [(f, self.expr_of(ft, bound, depth - 1)) for f, ft in ty[1]])
